@@ -30,6 +30,10 @@ pub struct Case {
     /// (latches, leftover buffers, unreaped or reused children). Every call is judged.
     #[serde(default)]
     pub earlier_calls: Vec<ProcPlan>,
+    /// Environment variables set in the run's process before the call(s): the formatter driver
+    /// may fork on its surroundings (RUSTFMT, CARGO, PATH ...), every branch owes the same answer.
+    #[serde(default)]
+    pub env: Vec<(String, String)>,
 }
 
 #[derive(Debug, Clone, Serialize, Deserialize)]
@@ -57,6 +61,12 @@ pub struct Verdict {
     pub spawns_seen: u64,
     /// more than one parent thread used the child's handles: the event order is not ours to decide
     pub multi_threaded_parent: bool,
+    /// environment variables the call asked for and that were not set (env-probe seam)
+    #[serde(default)]
+    pub env_probes: Vec<String>,
+    /// variables a second execution of the run added to the case (the verdict is that execution's)
+    #[serde(default)]
+    pub env_added: Vec<(String, String)>,
 }
 
 // ---------------------------------------------------------------------------------------------
@@ -466,6 +476,8 @@ pub fn run_case(case: &Case, reference: Option<&RefProgram>, want_log: bool) -> 
             skipped: true,
             spawns_seen: 0,
             multi_threaded_parent: false,
+            env_probes: vec![],
+            env_added: vec![],
         };
     };
     let case = case.clone();
@@ -475,6 +487,11 @@ pub fn run_case(case: &Case, reference: Option<&RefProgram>, want_log: bool) -> 
         .stack_size(32 << 20)
         .spawn(move || {
             crate::seams::set_thread_entropy(Some(entropy));
+            // one run is one process: its environment is ours to set
+            for (name, value) in &case.env {
+                std::env::set_var(name, value);
+            }
+            crate::seams::set_env_probe_recording(true);
             let backend = Arc::new(C19Backend {
                 plan: Mutex::new(case.proc.clone()),
                 later: Mutex::new(case.later.clone()),
@@ -549,10 +566,12 @@ pub fn run_case(case: &Case, reference: Option<&RefProgram>, want_log: bool) -> 
                 .collect();
             let programs = backend.programs.lock().unwrap().clone();
             let points = backend.points.load(Ordering::Relaxed);
-            (result, location, reports, programs, points, reference, earlier_failure)
+            let env_probes = crate::seams::take_env_probes();
+            crate::seams::set_env_probe_recording(false);
+            (result, location, reports, programs, points, reference, earlier_failure, env_probes)
         })
         .expect("spawn run thread");
-    let (result, location, reports, programs, points, reference, earlier_failure) =
+    let (result, location, reports, programs, points, reference, earlier_failure, env_probes) =
         handle.join().expect("run thread itself must not panic");
 
     let mut stats = ProcStats::default();
@@ -612,6 +631,8 @@ pub fn run_case(case: &Case, reference: Option<&RefProgram>, want_log: bool) -> 
         skipped: false,
         spawns_seen: programs.len() as u64,
         multi_threaded_parent: stats_threads > 1,
+        env_probes,
+        env_added: vec![],
     }
 }
 
@@ -653,6 +674,8 @@ fn crashed_verdict(case: &Case, what: String) -> Verdict {
         skipped: false,
         spawns_seen: 0,
         multi_threaded_parent: false,
+        env_probes: vec![],
+        env_added: vec![],
     }
 }
 
@@ -786,7 +809,24 @@ pub fn worker_main(args: &[String]) -> i32 {
         };
         let reference = reference_for(&cache, &case.job);
         let ref_len = reference.as_ref().map(|r| r.text.len()).unwrap_or(0);
-        let v = run_case_forked(&case, reference.as_ref(), false);
+        let mut v = run_case_forked(&case, reference.as_ref(), false);
+        if v.failure.is_none() && !v.env_probes.is_empty() {
+            // The driver asked its surroundings for variables that are not set: the same run
+            // once more with them set. If that execution fails, it is the verdict.
+            let mut with_env = case.clone();
+            let added: Vec<(String, String)> = v
+                .env_probes
+                .iter()
+                .filter(|name| !case.env.iter().any(|(k, _)| k == *name))
+                .map(|name| (name.clone(), "1".to_string()))
+                .collect();
+            with_env.env.extend(added.iter().cloned());
+            let mut second = run_case_forked(&with_env, reference.as_ref(), false);
+            if second.failure.is_some() {
+                second.env_added = added;
+                v = second;
+            }
+        }
         let mut out = stdout.lock();
         if writeln!(out, "V {i} {ref_len} {}", serde_json::to_string(&v).unwrap_or_default()).is_err() {
             return 0; // the driver has seen enough
@@ -1056,6 +1096,31 @@ pub fn gen_case(rng: &mut Rng) -> Case {
         }
         later.push(second);
     }
+    // One run in eight happens in different surroundings: variables a formatter driver might
+    // consult. The simulated formatter answers whatever program is started.
+    let mut env: Vec<(String, String)> = Vec::new();
+    if rng.chance(125) {
+        const MENU: &[(&str, &[&str])] = &[
+            ("RUSTFMT", &["rustfmt", "/nonexistent/bin/rustfmt", "my rustfmt --wrapper", ""]),
+            ("CARGO", &["/nonexistent/bin/cargo", "cargo"]),
+            ("RUSTUP_TOOLCHAIN", &["nightly-2020-01-01", "stable"]),
+            ("PATH", &["", "/nonexistent"]),
+            ("HOME", &["/nonexistent", ""]),
+            ("CARGO_MANIFEST_DIR", &["/nonexistent/manifest"]),
+            ("OUT_DIR", &["/nonexistent/out"]),
+            ("CI", &["true", "1"]),
+            ("TERM", &["dumb"]),
+            ("NO_COLOR", &["1"]),
+            ("RUST_BACKTRACE", &["1", "full"]),
+            ("RUST_LOG", &["trace"]),
+        ];
+        for _ in 0..rng.usize(1, 3) {
+            let (name, values) = rng.pick(MENU);
+            if !env.iter().any(|(k, _)| k == name) {
+                env.push((name.to_string(), rng.pick(values).to_string()));
+            }
+        }
+    }
     // One run in six is a sequence of calls in one process: one or two earlier calls whose
     // formatter misbehaves (or not), then the call described above.
     let mut earlier_calls = Vec::new();
@@ -1086,6 +1151,7 @@ pub fn gen_case(rng: &mut Rng) -> Case {
         proc,
         later,
         earlier_calls,
+        env,
     }
 }
 
@@ -1168,6 +1234,7 @@ pub fn systematic_cases() -> Vec<Case> {
         options.bytemuck_host = true;
         out.push(Case {
             earlier_calls: vec![],
+            env: vec![],
             later: vec![],
             job: Job {
                 shader: HUGE,
@@ -1191,6 +1258,7 @@ pub fn systematic_cases() -> Vec<Case> {
             options.rustfmt = true;
             out.push(Case {
                 earlier_calls: vec![],
+                env: vec![],
                 later: vec![],
                 job: Job {
                     shader: ShaderRef::Dense { kb: 200, pad },
@@ -1220,6 +1288,7 @@ pub fn systematic_cases() -> Vec<Case> {
                     let retry_variant = cap == 64 && *op_cost == 3;
                     out.push(Case {
                         earlier_calls: vec![],
+                        env: vec![],
                         later: if retry_variant {
                             // the interleaved small-capacity variant doubles as the "flaky formatter"
                             // block: whatever the first process did, a second one would be healthy
@@ -1498,7 +1567,9 @@ fn real_rustfmt_block(cache: &RefCache, limit_opts: usize) -> RealFmtResult {
     result
 }
 
-const REAL_RUSTFMT_TIMEOUT: std::time::Duration = std::time::Duration::from_secs(30);
+/// Generous on purpose: a driver that formats a 1.8 MB module in pieces starts hundreds of real
+/// formatter processes; slow is not hung. Only a real deadlock waits this long.
+const REAL_RUSTFMT_TIMEOUT: std::time::Duration = std::time::Duration::from_secs(240);
 
 /// Run one fault-free job against the real rustfmt in a fresh process; (class, detail, formatted).
 fn real_rustfmt_job(exe: &std::path::Path, job: &Job) -> (String, String, bool) {
@@ -1800,11 +1871,12 @@ fn run_batch(mode: &str, seed: u64, n: u64) -> Result<Tally, String> {
                         }
                     };
                     seen += 1;
-                    let case = if mode == "sys" {
+                    let mut case = if mode == "sys" {
                         sys[i as usize].clone()
                     } else {
                         case_for_run(seed, i)
                     };
+                    case.env.extend(v.env_added.iter().cloned());
                     if v.failure.as_ref().map(|f| !f.class.contains("semicolon")).unwrap_or(false) {
                         failing.fetch_add(1, Ordering::Relaxed);
                     }
